@@ -180,6 +180,13 @@ func ZZ_ES() {
 		case 4: // send to a foreign address, no remote configured
 			evN++
 			sends = append(sends, sendRec{evN, 1, nil, mark()})
+			if zzrt.NondetBool("foreignIdEqualsALocalActor") {
+				// the foreign PID's id is also the id of a live local actor: it is still a foreign target
+				foreign = NewPID("elsewhere:1", subs[0].Pid.ID)
+				zzrt.Reach("foreign-pid-with-a-local-id")
+			} else {
+				foreign = NewPID("elsewhere:1", "far"+pidSeparator+"y")
+			}
 			guard(func() { e.Send(foreign, zzUser{Seq: evN}) })
 		case 5: // nil target
 			guard(func() { e.Send(nil, zzUser{Seq: -1}) })
@@ -214,6 +221,13 @@ func ZZ_ES() {
 		if escaped {
 			return
 		}
+		for i := range subs {
+			for _, g := range subs[i].Got {
+				if _, raw := g.Msg.(zzUser); raw {
+					zzrt.Fail("C09:message-for-a-foreign-address-delivered-to-a-local-actor")
+				}
+			}
+		}
 		for _, sr := range sends {
 			for i := range subs {
 				n := 0
@@ -233,7 +247,7 @@ func ZZ_ES() {
 						if u, ok := ev.Message.(zzUser); ok && u.Seq == sr.n {
 							n++
 							zzrt.Assert(sr.kind == 1, "C09:remote-missing-for-local-target")
-							zzrt.Assert(ev.Target == foreign, "C09:remote-missing-loses-target")
+							zzrt.Assert(ev.Target != nil && ev.Target.Address == "elsewhere:1", "C09:remote-missing-loses-target")
 						}
 					}
 				}
